@@ -12,6 +12,7 @@ import Spec.Encode
 import Model.Container
 import Spec.Conforms
 import Spec.Choose
+import Spec.Pcf
 
 open Lean Wire
 
@@ -180,6 +181,10 @@ def handle (j : Json) : String :=
         | none => "{\"none\":true}"
         | some (i, _) => "{\"ok\":" ++ toString i ++ "}"
       | _ => errOut .other
+  | "spec.canon" =>
+    match Spec.pcf FUEL (getV j "schema") "" with
+    | none => "{\"none\":true}"
+    | some t => "{\"ok\":" ++ jsonStr t ++ "}"
   | "skip" =>
     match parseReq j with
     | .error e => "{\"perr\":\"" ++ e.name ++ "\"}"
